@@ -77,7 +77,15 @@ def main():
     if os.path.exists(ecp):
         expected = json.load(open(ecp)).get(tier, {})
     for ob in obs:
-        r = run_obligation(ctx, ob, cfg)
+        try:
+            r = run_obligation(ctx, ob, cfg)
+        except Exception as e:      # a harness that does not fit the (changed) code any more: this obligation is inconclusive, the others still run
+            import traceback
+            from framework import ObResult
+            r = ObResult(ob)
+            r.ob = ob
+            r.verdict = 'inconclusive'
+            r.inconclusive.append('internal error in the harness: %s: %s (%s)' % (type(e).__name__, e, traceback.format_exc().strip().split('\n')[-3].strip()[:160]))
         # vacuity guard across versions of the machinery: every witness that was reachable when the
         # obligation was registered must still be reachable (unless the obligation already reports a violation)
         missing = [c for c in expected.get(ob.id, []) if r.covers.get(c) != 'sat']
